@@ -153,7 +153,7 @@ class FakeGenerator:
             self._return = self._real("ExtendedKalmanFilter" if v.ekf else "Model", "_translate_return")
         self._readings = [FakeReading(n, sz, self) for n, sz in sorted(v.sensors)] if v.ekf else []
 
-    def _real(self, cls, name, *args):
+    def _real(self, cls, name, *args, **kwargs):
         """evaluate the generator class's own method (from the current cpp.py) on this stand-in"""
         w = self._w
         ev = w.evaluator(natives={"BasicBlock": FakeBlock, "Symbol": FakeSym, "diff": (lambda a, b: FakeSym()), "sympy": None})
@@ -161,7 +161,7 @@ class FakeGenerator:
         fn = core.find_func(c, name) if c is not None else None
         if fn is None:
             raise core.AnalysisError(f"anchor missing: cpp.{cls}.{name}")
-        return ev.call(minieval.Func(ev, "cpp", fn, self_obj=self), list(args), {})
+        return ev.call(minieval.Func(ev, "cpp", fn, self_obj=self), list(args), dict(kwargs))
 
     def __getattr__(self, name):
         # any other method of the real generator class is evaluated from the current cpp.py on this stand-in
@@ -171,7 +171,7 @@ class FakeGenerator:
         cls = "ExtendedKalmanFilter" if self.__dict__["v"].ekf else "Model"
         c = core.find_class(w.cpp, cls)
         if c is not None and core.find_func(c, name) is not None:
-            return lambda *a: self._real(cls, name, *a)
+            return lambda *a, **kw: self._real(cls, name, *a, **kw)
         raise AttributeError(name)
 
     def _body(self, name):
